@@ -272,7 +272,7 @@ func genRoundTrip(r *rng.R) corr.Case {
 		}
 	}
 	lines = append(lines, queue...)
-	lines = append(lines, "len", genRead(r, false))
+	lines = append(lines, "len", genRead(r, false), "recheck")
 	return corr.Case{Tag: "roundtrip", Lines: lines}
 }
 
@@ -327,7 +327,7 @@ func genGarbage(r *rng.R) corr.Case {
 	for i := r.Range(1, 8); i > 0; i-- {
 		lines = append(lines, genRead(r, false))
 	}
-	lines = append(lines, "len")
+	lines = append(lines, "len", "recheck")
 	return corr.Case{Tag: "garbage", Lines: lines}
 }
 
@@ -402,6 +402,7 @@ func genStream(r *rng.R, garbage bool) corr.Case {
 	for mode := 0; mode < 3; mode++ {
 		lines = append(lines, "sload "+r.Pick("0", "0", "1")+" "+chunk(r, b, mode))
 		lines = append(lines, reads...)
+		lines = append(lines, "recheck")
 	}
 	tag := "stream"
 	if garbage {
@@ -471,6 +472,49 @@ func genBig(r *rng.R, tier string) corr.Case {
 	lines = append(lines, reads...)
 	lines = append(lines, "ru8")
 	return corr.Case{Tag: "big-stream", Lines: lines}
+}
+
+// genRetain: several raw / string fields in a row (sizes on both sides of 64 and 4096 bytes), read through ReadN /
+// ZReadN / Read / ReadString from a buffer or from a stream; every slice handed out is looked at again at the end
+// (`recheck`): a value that was read stays what it was, whatever is read afterwards.
+func genRetain(r *rng.R) corr.Case {
+	lines := []string{genNew(r)}
+	var reads []string
+	n := r.Range(2, 6)
+	for i := 0; i < n; i++ {
+		size := r.PickInt(0, 1, 2, 5, 16, 63, 64, 65, 100, 300, 1000, 4095, 4096, 4097, 5000, 9000)
+		var arg string
+		if size > 40 {
+			arg = fmt.Sprintf("p%d:%d", r.Intn(1000), size)
+		} else {
+			arg = showRawHex(genBytes(r, size))
+		}
+		if r.Chance(1, 4) {
+			lines = append(lines, "wstr "+arg)
+			reads = append(reads, "rstr")
+			continue
+		}
+		lines = append(lines, "wraw "+arg)
+		switch {
+		case size == 0:
+			reads = append(reads, r.Pick("zreadn 0", "read 0"))
+		case r.Chance(2, 3):
+			reads = append(reads, "zreadn "+strconv.Itoa(size))
+		default:
+			reads = append(reads, r.Pick("readn ", "read ")+strconv.Itoa(size))
+		}
+	}
+	if r.Chance(2, 3) {
+		lines = append(lines, "tostream "+r.Pick("0", "0", "1")+" "+r.Pick("1", "3", "64", "4096", "1048576", "r"+strconv.Itoa(r.Intn(100000))))
+	}
+	for i, rd := range reads {
+		lines = append(lines, rd)
+		if i > 0 && r.Chance(1, 4) {
+			lines = append(lines, "recheck")
+		}
+	}
+	lines = append(lines, "recheck", "ru8", "recheck")
+	return corr.Case{Tag: "retain", Lines: lines}
 }
 
 var junkTokens = []string{"", "x", "-", "--1", "-0", "00", "0x10", "1e3", "256", "65536", "4294967296", "18446744073709551616",
@@ -558,6 +602,14 @@ func fixedCases() []corr.Case {
 		c("big-fixed", "new", "wlstr 65536 p9:65536", "wu8 9", "tostream 0 r12345", "rlstr 65536", "ru8"),
 		c("big-fixed", "new", "wraw p10:200000", "tostream 1 r7", "readn 200000", "ru8"),
 		c("big-fixed", "tload 65539 wstr p11:65536", "rstr", "len", "tload 65540 wstr p11:65536", "rstr", "len"),
+		// values stay what they were: every slice handed out by a raw reader is looked at again after later reads
+		c("retain-fixed", "sload 0 0102030405060708", "zreadn 3", "zreadn 3", "recheck", "ru16", "recheck"),
+		c("retain-fixed", "sload 0 0102030405060708", "zreadn 2", "rstr", "recheck"),
+		c("retain-fixed", "sload 0 01020300000000ff", "zreadn 2", "rlstr 4", "recheck", "readn 1", "read 1", "recheck"),
+		c("retain-fixed", "new", "wraw p1:100", "wraw p2:100", "wraw p3:4096", "wraw p4:4097", "wraw p5:4097", "tostream 0 64",
+			"zreadn 100", "zreadn 100", "zreadn 4096", "zreadn 4097", "zreadn 4097", "recheck"),
+		c("retain-fixed", "load 0102030405060708", "zreadn 3", "zreadn 3", "readn 1", "recheck", "ru8", "recheck"),
+		c("retain-fixed", "new", "wraw 010203", "zreadn 3", "recheck", "wraw 040506", "recheck", "zreadn 3", "recheck", "reset", "recheck"),
 		// length fields of 2^24 … 2^32-1 on a stream: executed in a memory-capped child process (T-observable)
 		c("huge-prefix-probe", "sload 0 ffffffff010203", "xrstr"),
 		c("huge-prefix-probe", "sload 0 ffffff7f010203", "xrstr"),
@@ -597,11 +649,14 @@ func spec() corr.Spec {
 			case "thorough":
 				return 200000
 			}
-			return 250000 // search
+			return 40000 // search: same classes, other seeds' worth of cases; bounded so that a run through S7 stays < 2 min
 		},
 		Gen: func(r *rng.R, tier string, i int) corr.Case {
 			if (tier == "quick" && i%400 == 399) || (tier != "quick" && i%150 == 149) {
 				return genBig(r, tier)
+			}
+			if i%20 == 13 {
+				return genRetain(r)
 			}
 			switch i % 10 {
 			case 0, 1, 2:
@@ -637,6 +692,7 @@ func spec() corr.Spec {
 			"(rewrite) ReWrite/ReWriteU32 at in-range, edge and out-of-range positions; (stream) the same bytes and read program under 1-byte, whole and random chunkings, " +
 			"with and without EOF-with-data; (malformed) ill-formed lines; (constructors) buffers made by NewBufferX, NewSizedBufferX(0|1|7|64|4096), NewReadableBufferX, readers by NewReaderX; " +
 			"(big) strings / raw bytes of 4095..262144 bytes (1 MiB beyond quick) through the buffer, cut near the end, and through streams chunked 1, 2, 4095, 4096, 65536, 1 MiB or randomly; " +
+			"(retain) several raw / string fields in a row (0..9000 bytes, around 64 and 4096) from a buffer or a stream, every slice handed out looked at again by `recheck` and at the end of the script; " +
 			"(huge-prefix-probe, T) length fields 2^25..2^32-1 read by the real ReaderX in a memory-capped child process. Non-trivial = at least one read returned a value; distinct = distinct script text",
 		Assumptions: []string{
 			"encoding/binary (LittleEndian put/get, PutUvarint/ReadUvarint/PutVarint/ReadVarint), bytes.Buffer (Read/Next/ReadByte/Write/Bytes) and io.ReadFull behave as modelled (validated by the correspondence runs, not proved)",
